@@ -44,7 +44,7 @@ def _playback(harness):
     res, text = kanirun.cargo_kani(d, kernels.os.path.join(kernels.TARGET, 'kani', 'kernels'), [harness], jobs=1,
                                    harness_timeout=600, extra=['-Z', 'concrete-playback', '--concrete-playback=print'])
     outs = []
-    for m in re.finditer(r'/// Check for `(\w+)`: "(.*?)"\s*\n\s*\n?#\[test\]\s*\nfn \w+\(\) \{\s*\n\s*let concrete_vals: Vec<Vec<u8>> = vec!\[(.*?)\n\s*\];', text, re.S):
+    for m in re.finditer(r'/// Check for `(\w+)`: ([^\n]*)\n\s*\n?#\[test\]\s*\nfn \w+\(\) \{\s*\n\s*let concrete_vals: Vec<Vec<u8>> = vec!\[(.*?)\n\s*\];', text, re.S):
         vals = [bytes(int(x) for x in vm.group(1).replace(' ', '').split(',') if x) for vm in re.finditer(r'vec!\[([0-9, ]*)\]', m.group(3))]
         outs.append((m.group(1), m.group(2), vals))
     return outs
